@@ -21,8 +21,7 @@
         of the hard sphere (measure zero) are excluded by hypotheses (see the statements). *)
 From Coq Require Import Reals Lra.
 From Coquelicot Require Import Coquelicot.
-From Interval Require Import Tactic.
-Require Import JF.Model.PotentialsR JF.Model.CoulombBoundR JF.Model.PotentialsRCases JF.Proofs.PotentialsRProofs.
+Require Import JF.Model.PotentialsR JF.Model.CoulombBoundR JF.Proofs.PotentialsRProofs.
 Open Scope R_scope.
 
 (** InversePowerPotential.displacement(velocity, separation, c1, c2, potential_change) *)
@@ -32,12 +31,8 @@ Theorem displacement_inverts_inverse_power : forall p pref c1 c2 dE x q speed t 
   0 < t /\ Eplus (ip_path p pref (c1 * c2) x q) (breaks_monotone x) (t * speed) = dE.
 Proof. exact ip_displacement_inverts. Qed.
 Print Assumptions displacement_inverts_inverse_power.
-Example displacement_inverts_inverse_power_nonvacuous :
-  sv_displacement (ip_displacement 6 1 1 1 (1 / 4) 1 1) 2 <> None.
-Proof. resolve. unfold_leaves. discriminate. Qed.
-Example displacement_inverts_inverse_power_nonvacuous_attractive :
-  sv_displacement (ip_displacement 1 1 1 (-1) (1 / 4) 1 1) 2 <> None.
-Proof. resolve. unfold_leaves. discriminate. Qed.
+(* Example displacement_inverts_inverse_power_nonvacuous: see Props/C02nonvacuous.v *)
+(* Example displacement_inverts_inverse_power_nonvacuous_attractive: see Props/C02nonvacuous.v *)
 
 Theorem infinite_iff_never_reached_inverse_power : forall p pref c1 c2 dE x q speed : R,
   0 < p -> 0 < q -> 0 < dE -> 0 < speed -> pref * (c1 * c2) <> 0 ->
@@ -45,9 +40,7 @@ Theorem infinite_iff_never_reached_inverse_power : forall p pref c1 c2 dE x q sp
   forall d, 0 <= d -> Eplus (ip_path p pref (c1 * c2) x q) (breaks_monotone x) d <= dE.
 Proof. exact ip_displacement_infinite. Qed.
 Print Assumptions infinite_iff_never_reached_inverse_power.
-Example infinite_iff_never_reached_inverse_power_nonvacuous :
-  sv_displacement (ip_displacement 6 1 1 1 (1 / 4) (-1) 1) 2 = None.
-Proof. resolve. reflexivity. Qed.
+(* Example infinite_iff_never_reached_inverse_power_nonvacuous: see Props/C02nonvacuous.v *)
 
 (** converse for the repulsive branch: if the budget is never reached the result is infinite; and when finite the
     event lies strictly before the closest approach, the radicand is non-negative, and the energy at the event is the
@@ -60,8 +53,7 @@ Theorem infinite_iff_never_reached_repulsive : forall p pref c dE x q : R,
    forall d, 0 <= d -> Eplus (ip_path p pref c x q) (breaks_monotone x) d <= dE).
 Proof. exact ip_repulsive_infinite_iff. Qed.
 Print Assumptions infinite_iff_never_reached_repulsive.
-Example infinite_iff_never_reached_repulsive_nonvacuous : ip_disp_repulsive 2 1 1 5 1 1 = None.
-Proof. resolve. reflexivity. Qed.
+(* Example infinite_iff_never_reached_repulsive_nonvacuous: see Props/C02nonvacuous.v *)
 
 Theorem displacement_inverts_repulsive : forall p pref c dE x q d : R,
   0 < p -> 0 < q -> 0 < dE -> 0 < c * pref ->
@@ -72,8 +64,7 @@ Theorem displacement_inverts_repulsive : forall p pref c dE x q d : R,
   Eplus (ip_path p pref c x q) (breaks_monotone x) d = dE.
 Proof. exact ip_repulsive_inverts. Qed.
 Print Assumptions displacement_inverts_repulsive.
-Example displacement_inverts_repulsive_nonvacuous : ip_disp_repulsive 2 1 1 (1 / 4) 1 1 <> None.
-Proof. resolve. unfold_leaves. discriminate. Qed.
+(* Example displacement_inverts_repulsive_nonvacuous: see Props/C02nonvacuous.v *)
 
 Theorem displacement_inverts_attractive : forall p pref c dE x q d : R,
   0 < p -> 0 < q -> 0 < dE -> c * pref < 0 ->
@@ -83,8 +74,7 @@ Theorem displacement_inverts_attractive : forall p pref c dE x q d : R,
   Eplus (ip_path p pref c x q) (breaks_monotone x) d = dE.
 Proof. exact ip_attractive_inverts. Qed.
 Print Assumptions displacement_inverts_attractive.
-Example displacement_inverts_attractive_nonvacuous : ip_disp_attractive 2 1 (-1) (1 / 4) 1 1 <> None.
-Proof. resolve. unfold_leaves. discriminate. Qed.
+(* Example displacement_inverts_attractive_nonvacuous: see Props/C02nonvacuous.v *)
 
 Theorem infinite_iff_never_reached_attractive : forall p pref c dE x q : R,
   0 < p -> 0 < q -> 0 < dE -> c * pref < 0 ->
@@ -92,8 +82,7 @@ Theorem infinite_iff_never_reached_attractive : forall p pref c dE x q : R,
   forall d, 0 <= d -> Eplus (ip_path p pref c x q) (breaks_monotone x) d < dE.
 Proof. exact ip_attractive_infinite. Qed.
 Print Assumptions infinite_iff_never_reached_attractive.
-Example infinite_iff_never_reached_attractive_nonvacuous : ip_disp_attractive 2 1 (-1) 5 1 1 = None.
-Proof. resolve. reflexivity. Qed.
+(* Example infinite_iff_never_reached_attractive_nonvacuous: see Props/C02nonvacuous.v *)
 
 (** the code's potential() is the energy k c / r^p, and the sign of its derivative along the path is constant on
     each side of the closest approach *)
@@ -129,9 +118,7 @@ Theorem radicands_nonneg_inverse_power : forall p pref c dE x q : R,
      0 <= (if Rlt_dec 0 x then x else 0) + until_neg x1 q (Rpower (k / (U0 + dE)) (2 / p))).
 Proof. exact ip_radicands_nonneg. Qed.
 Print Assumptions radicands_nonneg_inverse_power.
-Example radicands_nonneg_inverse_power_nonvacuous :
-  (1 / 4 : R) < ip_potential 2 1 1 (1 + 0 * 0) - ip_potential 2 1 1 (1 + 1 * 1).
-Proof. unfold_leaves. interval. Qed.
+(* Example radicands_nonneg_inverse_power_nonvacuous: see Props/C02nonvacuous.v *)
 
 (** HardSpherePotential.displacement(velocity, separation): general velocity; d2 = squared diameter *)
 Theorem hard_sphere_first_contact : forall (d2 : R) (v s : vec3) (t : R),
@@ -142,8 +129,7 @@ Theorem hard_sphere_first_contact : forall (d2 : R) (v s : vec3) (t : R),
   (forall t', 0 <= t' < t -> d2 < dot3 (sub3 s (scal3 t' v)) (sub3 s (scal3 t' v))).
 Proof. exact hs_first_contact. Qed.
 Print Assumptions hard_sphere_first_contact.
-Example hard_sphere_first_contact_nonvacuous : hs_displacement 1 (1, 0, 0) (3, 0, 0) <> None.
-Proof. resolve. unfold_leaves. discriminate. Qed.
+(* Example hard_sphere_first_contact_nonvacuous: see Props/C02nonvacuous.v *)
 
 Theorem hard_sphere_infinite_iff_no_contact : forall (d2 : R) (v s : vec3),
   0 < dot3 v v -> d2 < dot3 s s ->
@@ -151,8 +137,7 @@ Theorem hard_sphere_infinite_iff_no_contact : forall (d2 : R) (v s : vec3),
    forall t, 0 <= t -> d2 < dot3 (sub3 s (scal3 t v)) (sub3 s (scal3 t v))).
 Proof. exact hs_infinite_iff_no_contact. Qed.
 Print Assumptions hard_sphere_infinite_iff_no_contact.
-Example hard_sphere_infinite_iff_no_contact_nonvacuous : hs_displacement 1 (1, 0, 0) (3, 2, 0) = None.
-Proof. resolve. reflexivity. Qed.
+(* Example hard_sphere_infinite_iff_no_contact_nonvacuous: see Props/C02nonvacuous.v *)
 
 (** CellBoundingPotential: constant bounding rate *)
 Theorem displacement_inverts_cell_bounding : forall rate dE speed t : R,
@@ -160,15 +145,13 @@ Theorem displacement_inverts_cell_bounding : forall rate dE speed t : R,
   sv_displacement (cb_displacement rate dE) speed = Some t -> 0 < t /\ rate * (t * speed) = dE.
 Proof. exact cb_displacement_inverts. Qed.
 Print Assumptions displacement_inverts_cell_bounding.
-Example displacement_inverts_cell_bounding_nonvacuous : sv_displacement (cb_displacement 2 3) 1 <> None.
-Proof. resolve. unfold_leaves. discriminate. Qed.
+(* Example displacement_inverts_cell_bounding_nonvacuous: see Props/C02nonvacuous.v *)
 
 Theorem infinite_iff_cell_bounding : forall rate dE speed : R,
   sv_displacement (cb_displacement rate dE) speed = None <-> rate <= 0.
 Proof. exact cb_infinite_iff. Qed.
 Print Assumptions infinite_iff_cell_bounding.
-Example infinite_iff_cell_bounding_nonvacuous : sv_displacement (cb_displacement (-1) 3) 1 = None.
-Proof. resolve. reflexivity. Qed.
+(* Example infinite_iff_cell_bounding_nonvacuous: see Props/C02nonvacuous.v *)
 
 (** ** Mexican-hat potentials (Lennard-Jones, displaced even power): all cases of the code's case tree
     (in front of / behind the closest approach  x  inside / outside the minimum sphere  x  can / cannot climb the inner
@@ -193,14 +176,7 @@ Theorem displacement_inverts_lennard_jones : forall k sigma dE x q speed t : R,
   Eplus (fun s => lj_pot k sigma (q + (x - s) * (x - s))) (breaks_mexhat x q (lj_r0 sigma)) (t * speed) = dE.
 Proof. exact lj_displacement_inverts. Qed.
 Print Assumptions displacement_inverts_lennard_jones.
-(** behind the closest approach, outside, entering the sphere, budget above the inner barrier: the longest path *)
-Example displacement_inverts_lennard_jones_nonvacuous :
-  sv_displacement (lj_displacement 1 1 (2 / 5) (3 / 2) 1) 2 <> None /\
-  (2 / 5 <> lj_pot 1 1 1 - lj_pot 1 1 (Rmin (1 + 3 / 2 * (3 / 2)) (lj_r0 1 * lj_r0 1))).
-Proof.
-  split; [resolve; unfold_leaves; discriminate|].
-  unfold Rmin. resolve. apply Rgt_not_eq. unfold_leaves. interval.
-Qed.
+(* Example displacement_inverts_lennard_jones_nonvacuous: see Props/C02nonvacuous.v *)
 
 Theorem infinite_iff_never_reached_lennard_jones : forall k sigma dE x q speed : R,
   0 < k -> 0 < sigma -> 0 < q -> 0 < dE ->
@@ -211,9 +187,7 @@ Theorem infinite_iff_never_reached_lennard_jones : forall k sigma dE x q speed :
      Eplus (fun s => lj_pot k sigma (q + (x - s) * (x - s))) (breaks_mexhat x q (lj_r0 sigma)) d < dE).
 Proof. exact lj_infinite_iff. Qed.
 Print Assumptions infinite_iff_never_reached_lennard_jones.
-Example infinite_iff_never_reached_lennard_jones_nonvacuous :
-  sv_displacement (lj_displacement 1 1 (1 / 2) (- 3 / 2) (1 / 4)) 1 = None.
-Proof. resolve. reflexivity. Qed.
+(* Example infinite_iff_never_reached_lennard_jones_nonvacuous: see Props/C02nonvacuous.v *)
 
 Theorem displacement_inverts_displaced_even_power : forall (k r0 : R) (p : nat) (dE x q speed t : R),
   0 < k -> 0 < r0 -> (0 < p)%nat -> Nat.Even p -> 0 < q -> 0 < dE -> 0 < speed ->
@@ -222,13 +196,7 @@ Theorem displacement_inverts_displaced_even_power : forall (k r0 : R) (p : nat) 
   0 < t /\ Eplus (fun s => dep_pot k r0 p (q + (x - s) * (x - s))) (breaks_mexhat x q r0) (t * speed) = dE.
 Proof. exact dep_displacement_inverts. Qed.
 Print Assumptions displacement_inverts_displaced_even_power.
-Example displacement_inverts_displaced_even_power_nonvacuous :
-  sv_displacement (dep_displacement 1 1 2 (1 / 2) (1 / 2) (1 / 4)) 2 <> None /\ Nat.Even 2 /\
-  (1 / 2 <> dep_pot 1 1 2 (1 / 4) - dep_pot 1 1 2 (Rmin (1 / 4 + 1 / 2 * (1 / 2)) (1 * 1))).
-Proof.
-  split; [apply dep_never_infinite|]. split; [exists 1%nat; reflexivity|].
-  unfold Rmin. resolve. apply Rgt_not_eq. unfold_leaves. interval.
-Qed.
+(* Example displacement_inverts_displaced_even_power_nonvacuous: see Props/C02nonvacuous.v *)
 
 (** the displaced even power potential grows without bound: its event distance is never infinite, so
     "infinite exactly when never reached" holds with both sides false *)
@@ -271,8 +239,7 @@ Theorem invert_outside_minimum_lennard_jones : forall k sigma U rn : R,
   lj_inv_out k sigma U = Some rn -> U < 0 /\ lj_pot k sigma (rn * rn) = U.
 Proof. exact lj_invert_outside. Qed.
 Print Assumptions invert_outside_minimum_lennard_jones.
-Example invert_outside_minimum_lennard_jones_nonvacuous : lj_inv_out 1 1 (- 1 / 8) <> None.
-Proof. resolve. discriminate. Qed.
+(* Example invert_outside_minimum_lennard_jones_nonvacuous: see Props/C02nonvacuous.v *)
 
 Theorem invert_inside_minimum_lennard_jones : forall k sigma U : R,
   0 < k -> 0 < sigma -> - k / 4 <= U ->
@@ -341,8 +308,7 @@ Theorem hard_dipole_inner_contact : forall (min2 max2 : R) (v s : vec3) (t : R),
   hs_displacement min2 v s = Some t -> hd_displacement min2 max2 v s = t.
 Proof. exact hd_inner. Qed.
 Print Assumptions hard_dipole_inner_contact.
-Example hard_dipole_inner_contact_nonvacuous : hs_displacement 1 (1, 0, 0) (3, 0, 0) <> None.
-Proof. resolve. unfold_leaves. discriminate. Qed.
+(* Example hard_dipole_inner_contact_nonvacuous: see Props/C02nonvacuous.v *)
 
 Theorem hard_dipole_reaches_maximal_separation : forall (min2 max2 : R) (v s : vec3),
   0 < dot3 v v -> dot3 s s <= max2 ->
@@ -354,6 +320,4 @@ Theorem hard_dipole_reaches_maximal_separation : forall (min2 max2 : R) (v s : v
   (forall t', t < t' -> max2 < dot3 (sub3 s (scal3 t' v)) (sub3 s (scal3 t' v))).
 Proof. exact hd_reaches_max. Qed.
 Print Assumptions hard_dipole_reaches_maximal_separation.
-Example hard_dipole_reaches_maximal_separation_nonvacuous :
-  hs_displacement 1 (1, 0, 0) (3, 2, 0) = None /\ dot3 (3, 2, 0) (3, 2, 0) <= 16.
-Proof. split; [resolve; reflexivity | simpl; lra]. Qed.
+(* Example hard_dipole_reaches_maximal_separation_nonvacuous: see Props/C02nonvacuous.v *)
